@@ -2,9 +2,10 @@
 
    Mirrors rust/automerge/src/cursor.rs: [Cursor::to_bytes], [TryFrom<&[u8]> for Cursor]
    (version 1, and the version-0 form read by [parse_0]), [Display for Cursor / OpCursor],
-   [Cursor::from_str] behind [TryFrom<&str>].  Trailing bytes are ignored by the byte reader, as in
-   the code. *)
-From AM Require Import Base.Prelude Base.Leb128 Gen.Consts Codec.Bloom Codec.Hex.
+   [Cursor::from_str] behind [TryFrom<&str>], [OpCursor::new] (the actor of the internal id is
+   looked up by index: [op_set.actors[id.actor()]]).  Trailing bytes are ignored by the byte
+   reader, as in the code. *)
+From AM Require Import Base.Prelude Base.Leb128 Gen.Consts Codec.Bloom Codec.Hex Codec.ExId.
 Local Open Scope N_scope.
 
 Inductive move_cursor := MBefore | MAfter.
@@ -111,4 +112,11 @@ Definition cursor_of_str (s : str) : res cursor :=
     else if c =? 101 then Ok CEnd            (* "e" *)
     else Err
   | _ => cursor_op_of_str s
+  end.
+
+(* OpCursor::new(id, op_set, move_cursor): the cursor of an element with internal id (ctr, idx) *)
+Definition cursor_new (t : table) (o : N * N) (m : move_cursor) : res cursor :=
+  match get_actor_safe t (snd o) with
+  | Some a => Ok (COp (fst o) a m)
+  | None => Panic                              (* op_set.actors[id.actor()] *)
   end.
